@@ -3,6 +3,7 @@
    them, the final tree, and per queried aligned range the get callbacks.  All times are Unix
    seconds as Go reports them; they are converted to slots here. *)
 From Pyro Require Export Model.Base Model.Float53 Model.Segment Corr.Verdict.
+From Pyro Require Import Proofs.SegCanon.   (* only for the definition of the canonical decomposition s_canon *)
 Open Scope string_scope.
 Local Open Scope Z_scope.
 
@@ -190,6 +191,21 @@ Fixpoint maximal_ok (lvl : nat) (qa qb : Z) (keys : list skey) (n : snode) {stru
       end
   end.
 
+(* (vii) when no write contains an aligned bucket of level >= 1 (all spans < 10 slots) and every slot of the
+   range was written, the cover must be the canonical decomposition below the root bucket *)
+Fixpoint all_slots_written (n : nat) (x : Z) (nw : list (Z * Z)) : bool :=
+  match n with
+  | O => true
+  | S n' => existsb (fun w => (fst w <=? x) && (x <? snd w)) nw && all_slots_written n' (x + 1) nw
+  end.
+Definition canonical_ok (nw : list (Z * Z)) (gtree : option (nat * snode)) (qa qb : Z) (keys : list skey) : bool :=
+  match gtree with
+  | Some (lvl, SNode t _ _ _ _) =>
+      negb (forallb (fun w => snd w - fst w <? 10) nw && (qb - qa <=? 1500) && all_slots_written (Z.to_nat (qb - qa)) qa nw)
+      || list_eqb skey_eqb keys (s_canon lvl t qa qb)
+  | None => true
+  end.
+
 Record qres := { qr_a : Z; qr_b : Z; qr_sum : vec }.
 
 Definition check_query (n : nat) (nw : list (Z * Z)) (E : vstore) (gtree : option (nat * snode))
@@ -216,6 +232,8 @@ Definition check_query (n : nat) (nw : list (Z * Z)) (E : vstore) (gtree : optio
                "a range covering all writes does not return every write entirely";
           spec (match gtree with Some (lvl, t) => maximal_ok lvl qa qb keys t | None => true end)
                "Get descended below a present bucket that fits in the range";
+          spec (canonical_ok nw gtree qa qb keys)
+               "fully written range, short writes: the cover is not the canonical power-of-ten decomposition";
           corr (list_eqb gcb_eqb (sort_gcbs (s_get qa qb model)) (sort_gcbs g))
                "s_get model differs from Segment.Get callbacks"
         ] in
